@@ -657,6 +657,60 @@ func c14Observed(o *Outcome) []string {
 	return obs
 }
 
+// c14Unanswered lists the failures delivered to the code that it did not answer by a
+// later, successful request for the same thing (the same container's log, the list).
+func c14Unanswered(o *Outcome) []string {
+	var un []string
+	reasked := func(id string, after int) bool {
+		for _, oc := range o.Opens {
+			if oc.ID == id && oc.OpenIdx > after && oc.Err == "" {
+				return true
+			}
+		}
+		return false
+	}
+	for i, l := range o.Lists {
+		if !l.Failed {
+			continue
+		}
+		again := false
+		for _, l2 := range o.Lists[i+1:] {
+			if !l2.Failed {
+				again = true
+			}
+		}
+		if !again {
+			un = append(un, FaultListError)
+		}
+	}
+	for _, oc := range o.Opens {
+		if oc.Err != "" && !reasked(oc.ID, oc.OpenIdx) {
+			if strings.Contains(oc.Err, "injected") {
+				un = append(un, FaultOpenError)
+			} else {
+				un = append(un, FaultCancel)
+			}
+		}
+	}
+	for _, s := range o.Streams {
+		kind := ""
+		switch {
+		case s.CancelObserved:
+			kind = FaultCancel
+		case s.ErrDelivered:
+			kind = FaultReadError
+		case s.EOFDelivered && (s.CutClass == "hdr_body" || s.CutClass == "body"):
+			kind = FaultCut
+		case s.BadFrameEnd > 0 && s.Delivered >= s.BadFrameEnd:
+			kind = FaultFrame
+		}
+		if kind != "" && !reasked(s.ID, s.OpenIdx) {
+			un = append(un, kind)
+		}
+	}
+	return un
+}
+
 func (propC14) Check(t *testing.T, p *Plan, st *Stats) *Violation {
 	viol := func(clause, exp, obs string) *Violation {
 		return &Violation{Property: "C14", Clause: clause, Expected: exp, Observed: obs,
@@ -822,15 +876,12 @@ func (propC14) Check(t *testing.T, p *Plan, st *Stats) *Violation {
 			}
 			return viol("C14(ii:result-equals-twin)", "the fault-free twin's result: "+clip(b, 400), clip(a, 400))
 		}
-		hard := 0
-		for _, k := range observed {
-			if k != FaultCloseError && k != FaultCtxCancel {
-				hard++
+		if p.Tags["undetermined"] == "1" {
+			// nothing to compare the answer with: fall back to the literal reading, except
+			// for failures the code answered by asking again (a retried open, a reconnect)
+			if un := c14Unanswered(o); len(un) > 0 {
+				return viol("C14(i:error-surfaces)", fmt.Sprintf("an error (the code was told about: %v)", un), "nil error, "+o.Result.Summary())
 			}
-		}
-		if hard > 0 && p.Tags["undetermined"] == "1" {
-			// nothing to compare the answer with: fall back to the literal reading
-			return viol("C14(i:error-surfaces)", fmt.Sprintf("an error (the code was told about: %v)", observed), "nil error, "+o.Result.Summary())
 		}
 		if v := closeViol(o2, "fault-free twin"); v != nil {
 			return v
